@@ -76,8 +76,8 @@ struct Out { @align(16) p: In, q: u32, @align(8) r: u32, s: array<In, 2> }
 @compute @workgroup_size(1) fn main() {
 	b.q = u32(b.p.y + b.s[1].x); b.r = 77u; b.s[0].y = b.p.x;
 }`,
-		in: bmap{bd(0, 0): cat(f32s(1.5, 2), zeros(8), u32s(0), zeros(4), u32s(0), f32s(10, 11), zeros(8), f32s(20, 21), zeros(8), zeros(4))},
-		want: bmap{bd(0, 0): cat(f32s(1.5, 2), zeros(8), u32s(22), zeros(4), u32s(77), f32s(10, 1.5), zeros(8), f32s(20, 21), zeros(8), zeros(4))},
+		in:     bmap{bd(0, 0): cat(f32s(1.5, 2), zeros(8), u32s(0), zeros(4), u32s(0), f32s(10, 11), zeros(8), f32s(20, 21), zeros(8), zeros(4))},
+		want:   bmap{bd(0, 0): cat(f32s(1.5, 2), zeros(8), u32s(22), zeros(4), u32s(77), f32s(10, 1.5), zeros(8), f32s(20, 21), zeros(8), zeros(4))},
 		defect: "@align/@size struct attributes are dropped by the GLSL backend: members are declared back to back in a std430 block, so every member after the attribute sits at the wrong offset",
 	},
 	{
@@ -114,10 +114,10 @@ struct UU { a: vec3<f32>, b: f32, m: mat3x3<f32>, n: mat4x4<f32>, arr: array<vec
 	let c = u.m[1]; o[9] = c.x + c.y + c.z;
 }`,
 		in: bmap{bd(0, 0): cat(
-			f32s(1, 2, 3, 4), // a, b
+			f32s(1, 2, 3, 4),                                           // a, b
 			f32s(1, 0, 0), pad, f32s(0, 2, 0), pad, f32s(5, 6, 3), pad, // m columns
 			f32s(0, 0, 0, 0, 0, 0, 0, 0, 0, 0, 0, 0, 10, 11, 12, 13), // n
-			f32s(20, 21, 22, 23, 30, 31, 32, 33), // arr
+			f32s(20, 21, 22, 23, 30, 31, 32, 33),                     // arr
 			i32s(1), pad, pad, pad),
 			bd(0, 1): zeros(40)},
 		// m*a = 1*(1,0,0) + 2*(0,2,0) + 3*(5,6,3) = (16, 22, 9)
